@@ -58,7 +58,22 @@ class Env:
         self.stats["probes"][name] += n
 
     def snapshot(self):
-        return {e.eid: snap_any(e.obj) for e in self.world.live_entries()}
+        out = {}
+        for e in self.world.live_entries():
+            s = snap_any(e.obj)
+            if "row" in e.tags:
+                # a held Row also shows values *by name*: part of what it shows
+                named = []
+                for t in sorted(e.tags):
+                    if t.startswith("acc:"):
+                        try:
+                            named.append((t[4:], V.tv(getattr(e.obj, t[4:]))))
+                        except Exception as ex:
+                            named.append((t[4:], ("raises", type(ex).__name__)))
+                            ex = None
+                s = s + (("by-name", tuple(named)),)
+            out[e.eid] = s
+        return out
 
 
 _INSTALLED = None
